@@ -82,7 +82,7 @@ def search(ctx: Ctx) -> Result:
 
 
 SPEC = PropSpec(
-    prop='C04', translators=[], run=run, search=search,
+    prop='C04', translators=['deciderfrag'], run=run, search=search,
     rule='a loop-race family (one instance repeats a looping block while another leaves it; sampled delivery orders), a racing-pair family (2 instances, one replicated run, a racing pair of inputs {update,halt,complete} x every order of '
          'the pending passes/deliveries; sampled in quick, complete in thorough) plus seeded random schedules of 8-40 operations '
          'over {input, outgoing pass, deliver, re-delivery} for 2-3 instances and three pattern sets (halt condition, loops, '
